@@ -90,4 +90,180 @@ theorem contents_nodup (r : HandRange W) : ((HandRange.contents r).map (·.1)).N
     simp only [HandRange.remove, List.mem_filter, decide_eq_true_eq] at this
     exact this.2 hek
 
+/-! ### `rankPairs`, `orphans` -/
+
+theorem rankRange_to_deuce (a : Nat) (ha : a < 13) :
+    rankRange a rankDeuce true = .ok (List.range' a (13 - a)) := by
+  have := (C13.rank_range_run a 12 ha (by omega) (by omega)).2
+  simpa [rankDeuce] using this
+
+theorem rankRange_highs : rankRange rankAce rankTrey true = .ok (List.range' 0 12) := by decide
+
+/-- the rank pairs reported for one high card: per kicker below it, suited then offsuit -/
+def rowOf (wt : WText W) (r : HandRange W) (high : Nat) : List (RankPair × W) :=
+  (List.range' (high + 1) (12 - high)).flatMap fun kicker =>
+    ((rankPairWeight wt r (.suited high kicker) (mkPair ⟨high, 0⟩ ⟨kicker, 0⟩)).map fun p => (RankPair.suited high kicker, p)).toList
+    ++ ((rankPairWeight wt r (.ofsuit high kicker) (mkPair ⟨high, 0⟩ ⟨kicker, 1⟩)).map fun p => (RankPair.ofsuit high kicker, p)).toList
+
+theorem rankPairs_rows_eq (wt : WText W) (r : HandRange W) (highs : List Nat) (h : ∀ x ∈ highs, x ≤ 11) :
+    rankPairs.rows wt r highs = .ok (highs.flatMap (rowOf wt r)) := by
+  induction highs with
+  | nil => rfl
+  | cons high rest ih =>
+    have hh : high ≤ 11 := h high List.mem_cons_self
+    have e : 13 - (high + 1) = 12 - high := by omega
+    simp only [rankPairs.rows, rankNext_lt high (by omega), rankRange_to_deuce (high + 1) (by omega),
+      ih (fun x hx => h x (List.mem_cons_of_mem _ hx)), e, List.flatMap_cons, rowOf]
+
+/-- the pocket pairs reported -/
+def pocketsOf (wt : WText W) (r : HandRange W) : List (RankPair × W) :=
+  (List.range 13).filterMap fun rank =>
+    (rankPairWeight wt r (.pocket rank) (mkPair ⟨rank, 0⟩ ⟨rank, 1⟩)).map fun p => (RankPair.pocket rank, p)
+
+/-- `rank_pairs()` never panics; its result, explicitly -/
+theorem rankPairs_eq (wt : WText W) (r : HandRange W) :
+    rankPairs wt r = .ok (pocketsOf wt r ++ (List.range' 0 12).flatMap (rowOf wt r)) := by
+  have hrows := rankPairs_rows_eq wt r (List.range' 0 12) (by
+    intro x hx; simp only [List.mem_range'_1] at hx; omega)
+  simp only [rankPairs, C13.rank_range_all, rankRange_highs, hrows, pocketsOf]
+
+theorem orphans_eq (wt : WText W) (r : HandRange W) :
+    orphans wt r = .ok ((pocketsOf wt r ++ (List.range' 0 12).flatMap (rowOf wt r)).foldl
+      (fun m rp => rp.1.combos.foldl (fun m cp => HandRange.remove m cp) m) r) := by
+  simp only [orphans, rankPairs_eq]
+
+/-! ### `rowTokens` -/
+
+theorem rankPrev_pos (r : Nat) (h1 : 1 ≤ r) (h2 : r < 13) : rankPrev r = some (r - 1) := by
+  have := (C13.rank_next_prev r h2).2
+  rw [this, if_pos (by omega)]
+
+/-- the run-length loop never panics when every rank after the first is a rank with a predecessor and the open
+run, if any, starts at a rank that has a weight -/
+theorem rowTokens_loop_ok (wt : WText W) (first : Nat) (mk : Nat → RankPair) (look : Nat → Option W)
+    (row : List Nat) (start : Option Nat) (acc : List (Token W))
+    (hstart : ∀ s, start = some s → (look s).isSome = true)
+    (hrow : ∀ r ∈ (if start.isSome then row else row.tail), 1 ≤ r ∧ r < 13) :
+    ∃ st acc', rowTokens.loop wt first mk look row start acc = .ok (st, acc')
+      ∧ ∀ s, st = some s → (look s).isSome = true := by
+  induction row generalizing start acc with
+  | nil => exact ⟨start, acc, rfl, hstart⟩
+  | cons rank rest ih =>
+    cases start with
+    | none =>
+      simp only [rowTokens.loop, Option.isNone_none, Bool.true_and]
+      apply ih
+      · intro s hs
+        split at hs
+        · rename_i h; cases hs; exact h
+        · cases hs
+      · intro r hr
+        simp only [Option.isSome_none, Bool.false_eq_true, if_false, List.tail_cons] at hrow
+        split at hr
+        · exact hrow r hr
+        · exact hrow r (List.mem_of_mem_tail hr)
+    | some s =>
+      simp only [Option.isSome_some, if_true] at hrow
+      have hs := hstart s rfl
+      obtain ⟨sp, hsp⟩ := Option.isSome_iff_exists.mp hs
+      have hrank := hrow rank List.mem_cons_self
+      have hrest : ∀ r ∈ rest, 1 ≤ r ∧ r < 13 := fun r hr => hrow r (List.mem_cons_of_mem _ hr)
+      have closed : ∀ (start' : Option Nat) (acc' : List (Token W)),
+          (start' = none ∨ (start' = some rank ∧ (look rank).isSome = true)) →
+          ∃ st acc'', rowTokens.loop wt first mk look rest start' acc' = .ok (st, acc'')
+            ∧ ∀ s, st = some s → (look s).isSome = true := by
+        intro start' acc' h'
+        apply ih
+        · intro s' hs'
+          rcases h' with h' | ⟨h', h''⟩
+          · rw [h'] at hs'; cases hs'
+          · rw [h'] at hs'; cases hs'; exact h''
+        · intro r hr
+          split at hr
+          · exact hrest r hr
+          · exact hrest r (List.mem_of_mem_tail hr)
+      have cont : ∀ (acc' : List (Token W)),
+          ∃ st acc'', rowTokens.loop wt first mk look rest (some s) acc' = .ok (st, acc'')
+            ∧ ∀ s, st = some s → (look s).isSome = true := by
+        intro acc'
+        apply ih
+        · intro s' hs'; cases hs'; exact hs
+        · intro r hr; exact hrest r hr
+      cases hl : look rank with
+      | none =>
+        simp only [rowTokens.loop, hsp, rankPrev_pos rank hrank.1 hrank.2, hl, if_true,
+          Option.isNone_none, Option.isSome_none, Bool.and_false, Bool.false_eq_true, if_false]
+        exact closed _ _ (.inl rfl)
+      | some p =>
+        cases hw : wt.eq p sp with
+        | false =>
+          simp only [rowTokens.loop, hsp, rankPrev_pos rank hrank.1 hrank.2, hl, hw, Bool.not_false, if_true,
+            Option.isNone_none, Option.isSome_some, Bool.and_true]
+          exact closed _ _ (.inr ⟨rfl, by simp [hl]⟩)
+        | true =>
+          simp only [rowTokens.loop, hsp, rankPrev_pos rank hrank.1 hrank.2, hl, hw, Bool.not_true,
+            Bool.false_eq_true, if_false, Option.isNone_some, Bool.false_and]
+          exact cont _
+
+theorem rowTokens_ok (wt : WText W) (rps : List (RankPair × W)) (first last : Nat) (mk : Nat → RankPair)
+    (row : List Nat) (hrow : ∀ r ∈ row.tail, 1 ≤ r ∧ r < 13) :
+    ∃ toks, rowTokens wt rps first last mk row = .ok toks := by
+  obtain ⟨st, acc, hloop, hst⟩ := rowTokens_loop_ok wt first mk (fun rank => rpLookup rps (mk rank)) row none []
+    (fun s hs => nomatch hs) (by simpa using hrow)
+  cases st with
+  | none => exact ⟨acc, by simp only [rowTokens, hloop]⟩
+  | some s =>
+    obtain ⟨sp, hsp⟩ := Option.isSome_iff_exists.mp (hst s rfl)
+    simp only [rowTokens, hloop, hsp]
+    exact ⟨_, rfl⟩
+
+/-! ### `orphanTokens`, `showRange` -/
+
+theorem orphanTokens_outer_ok (orph : HandRange W) (suits highs : List Nat) (h : ∀ x ∈ highs, x < 13) :
+    ∃ l, orphanTokens.outer orph suits highs = .ok l := by
+  induction highs with
+  | nil => exact ⟨[], rfl⟩
+  | cons high rest ih =>
+    obtain ⟨tl, htl⟩ := ih (fun x hx => h x (List.mem_cons_of_mem _ hx))
+    simp only [orphanTokens.outer, rankRange_to_deuce high (h high List.mem_cons_self), htl]
+    exact ⟨_, rfl⟩
+
+theorem orphanTokens_ok (orph : HandRange W) : ∃ l, orphanTokens orph = .ok l := by
+  simp only [orphanTokens, C13.rank_range_all, C13.suit_range_all]
+  exact orphanTokens_outer_ok orph _ _ (fun x hx => List.mem_range.mp hx)
+
+theorem showRangeTokens_rows_ok (wt : WText W) (rps : List (RankPair × W)) (highs : List Nat)
+    (h : ∀ x ∈ highs, x ≤ 11) : ∃ l, showRangeTokens.rows wt rps highs = .ok l := by
+  induction highs with
+  | nil => exact ⟨[], rfl⟩
+  | cons high rest ih =>
+    have hh : high ≤ 11 := h high List.mem_cons_self
+    obtain ⟨tl, htl⟩ := ih (fun x hx => h x (List.mem_cons_of_mem _ hx))
+    have hk : ∀ r ∈ (List.range' (high + 1) (13 - (high + 1))).tail, 1 ≤ r ∧ r < 13 := by
+      intro r hr
+      have := List.mem_of_mem_tail hr
+      simp only [List.mem_range'_1] at this
+      omega
+    obtain ⟨a, ha⟩ := rowTokens_ok wt rps (high + 1) rankDeuce (.suited high) _ hk
+    obtain ⟨b, hb⟩ := rowTokens_ok wt rps (high + 1) rankDeuce (.ofsuit high) _ hk
+    simp only [showRangeTokens.rows, rankNext_lt high (by omega), rankRange_to_deuce (high + 1) (by omega),
+      ha, hb, htl]
+    exact ⟨_, rfl⟩
+
+theorem showRangeTokens_ok (wt : WText W) (r : HandRange W) : ∃ toks, showRangeTokens wt r = .ok toks := by
+  have hp : ∀ x ∈ (List.range 13).tail, 1 ≤ x ∧ x < 13 := by decide
+  obtain ⟨pt, hpt⟩ := rowTokens_ok wt (pocketsOf wt r ++ (List.range' 0 12).flatMap (rowOf wt r))
+    rankAce rankDeuce .pocket (List.range 13) hp
+  obtain ⟨rt, hrt⟩ := showRangeTokens_rows_ok wt (pocketsOf wt r ++ (List.range' 0 12).flatMap (rowOf wt r))
+    (List.range' 0 12) (by intro x hx; simp only [List.mem_range'_1] at hx; omega)
+  obtain ⟨ot, hot⟩ := orphanTokens_ok ((pocketsOf wt r ++ (List.range' 0 12).flatMap (rowOf wt r)).foldl
+      (fun m rp => rp.1.combos.foldl (fun m cp => HandRange.remove m cp) m) r)
+  simp only [showRangeTokens, rankPairs_eq, orphans_eq, C13.rank_range_all, rankRange_highs, hpt, hrt, hot]
+  exact ⟨_, rfl⟩
+
+theorem showRange_ok (wt : WText W) (r : HandRange W) : ∃ txt, showRange wt r = .ok txt := by
+  obtain ⟨toks, h⟩ := showRangeTokens_ok wt r
+  simp only [showRange, h]
+  exact ⟨_, rfl⟩
+
 end EspadaVerif.RangeAux
